@@ -4,6 +4,7 @@ from .paths import stores, calls, field_stores
 from .pat import (num, is_const, unload, last_field, is_field, strip_casts, is_call, has_cmp, cmp_int_true,
                   all_paths, show_facts, field_chain, root_of, contains, base_of, find_calls)
 from .tables import aggregates, unwrap, src_field, src_base
+from .inline import expand_calls
 from .rules_limits import (FW, fw_fns, ret_defs, is_false_const, is_true_const, shape, is_range_loop_var,
                            next_state_payload, count_between, min_max_on_paths, switch_conditions, event_arms)
 
@@ -172,6 +173,7 @@ def check_C04(ctx, rep):
                 rep.ob('C04.R3', fn, 'const-return', num(v) <= day, 'returns constant %s' % shape(v))
                 continue
             n_nonconst += 1
+            v = expand_calls(ctx, v)
             ok = v[0] == 'cast' and v[1] == 'FloatToInt'
             inner = v[3] if ok else None
             if ok and is_call(inner, '::round'):
